@@ -23,6 +23,7 @@ def make_jobs(seed, n, only_compute=False, tag="c01"):
             # C08: compute-heavy programs on one or two keys
             hot = j["finals"][:2] if j["cfg"] not in ("thr16", "thr64") else j["finals"][-3:-1]
             u = gen.Uids(5000)
+            wide = [k for k in j["finals"] if k not in hot]
             j["kind"] = "map"
             if not any(p.get("k") == hot[0] for p in j["prefix"]):
                 j["prefix"] = j["prefix"] + [gen.ins(hot[0], u)]
@@ -34,7 +35,8 @@ def make_jobs(seed, n, only_compute=False, tag="c01"):
                     if r < 0.6:
                         prog.append({"op": "compute", "k": rng.choice(hot), "f": rng.choice(["inc", "inc", "inc", "none", "const"]), "n": u.next()})
                     else:
-                        prog.append(gen.perkey_op(rng, "map", hot, u))
+                        # structural neighbours: inserts / removals of other keys of the same bins
+                        prog.append(gen.perkey_op(rng, "map", hot + wide, u))
                 thr.append(prog)
             j["threads"] = thr
         jobs.append(j)
